@@ -890,6 +890,7 @@ func splitInlineBox(context *layoutContext, box_ Box, positionX, maxX, bottomSpa
 		if !bo.LineT.IsInstance(box_) && len(lineChildren) == 0 && positionX > initialPositionX {
 			childLineChildren = []indexedBox{{index: -1}}
 		}
+		nAbsolutes, nFixed, nPlaceholders := len(*absoluteBoxes), len(*fixedBoxes), len(*linePlaceholders)
 		v := splitInlineLevel(context, child_, positionX, availableWidth, bottomSpace, skipStack,
 			containingBlock, absoluteBoxes, fixedBoxes, linePlaceholders, &childWaitingFloats, childLineChildren)
 		resumeAt = v.resumeAt
@@ -908,6 +909,10 @@ func splitInlineBox(context *layoutContext, box_ Box, positionX, maxX, bottomSpa
 			// TODO: we should take care of children added into absoluteBoxes,
 			// fixedBoxes and other lists.
 			availableWidth -= endSpacing
+			// the child is laid out again: forget the placeholders registered by the first attempt
+			*absoluteBoxes, *fixedBoxes = (*absoluteBoxes)[:nAbsolutes], (*fixedBoxes)[:nFixed]
+			*linePlaceholders = (*linePlaceholders)[:nPlaceholders]
+			childWaitingFloats = nil
 
 			v := splitInlineLevel(context, child_, positionX, availableWidth, bottomSpace, skipStack,
 				containingBlock, absoluteBoxes, fixedBoxes, linePlaceholders, &childWaitingFloats, childLineChildren)
